@@ -15,6 +15,17 @@ func init() {
 }
 
 func c10(c *q.Ctx) {
+	// range bounds of the in-memory model that backs the read cache, the write cache and the replay reader: an
+	// open-ended scan ends at the first key GREATER than every key of the bucket (prefixEnd of the bucket prefix),
+	// not at some key inside the bucket's key space
+	if sel := c.Fn("kernel/contract/sandbox::(*MemXModel).Select"); sel != nil {
+		c.ArgIs(sel, "sandbox::newTreeRangeIterator", 1, "sandbox.makeRawKey(p1,p2)", 1, "the scan starts at the start key inside the bucket")
+		c.ArgIs(sel, "sandbox::newTreeRangeIterator", 2, "phi{sandbox.makeRawKey(p1,p3)|sandbox.prefixEnd(sandbox.makeRawKey(p1,nil))}", 1, "and ends at the end key, or past the whole bucket when none is given")
+		c.Guard(sel, q.Cond{Canon: "(0 < dyn:p0.tree.Comparator(p2,p3))", Sense: true}, q.ToSuccess(), q.Opt{})
+	}
+	if pe := c.P.Funcs["kernel/contract/sandbox::prefixEnd"]; pe != nil && len(pe.Blocks) > 0 {
+		c.CondCount(pe, "(*[#down] < 255)", 1, "the limit is the prefix with its last byte below 0xff incremented")
+	}
 	const sb = "kernel/contract/sandbox::"
 	get := c.Fn(sb + "(*XMCache).Get")
 	if get != nil {
